@@ -53,37 +53,90 @@ Section DispatchFun.
       apply andb_true_iff in E2. destruct E2 as [_ E2]. apply Z.ltb_lt in E2. lia.
   Qed.
 
+  (** The same program with the monad unfolded: a cascade of checks, each of
+      which returns the UNCHANGED world, followed by the writes. *)
+  Definition resolve_pure (o : op) (rm : option Z) : Z + exn :=
+    match rm with
+    | Some m => inl m
+    | None => match machines o with [] => inr EIndex | [m] => inl (Z.of_nat m) | _ => inr EUninit end
+    end.
+
+  Definition dispatch_pure (I : instance) (r : request) (w : world O) : world O * (unit + exn) :=
+    match get_op I (r_job r) (r_pos r) with
+    | None => (w, inr EOther)
+    | Some o =>
+      if (nthN (jnext (core w)) (r_job r) =? r_pos r)%nat then
+        match resolve_pure o (r_mach r) with
+        | inr e => (w, inr e)
+        | inl m =>
+          match py_index (length (mfree (core w))) m with
+          | None => (w, inr EIndex)
+          | Some mi =>
+            if existsb (fun k => Z.of_nat k =? m) (machines o) then
+              match nth_error (sched (core w)) (Z.to_nat m) with
+              | None => (w, inr EIndex)
+              | Some row =>
+                let st := Z.max (nthZ (mfree (core w)) mi) (nthZ (jfree (core w)) (r_job r)) in
+                let x := mksop (r_job r) (r_pos r) st (Z.to_nat m) in
+                match last_opt row with
+                | Some y => if s_end I y <=? st then (after I w x row, inl tt) else (w, inr EValidation)
+                | None => (after I w x row, inl tt)
+                end
+              end
+            else (w, inr EValidation)
+          end
+        end
+      else (w, inr EValidation)
+    end.
+
+  Theorem dispatch_is_pure (I : instance) (r : request) (w : world O) :
+    dispatch o_update I r w = dispatch_pure I r w.
+  Proof.
+    destruct w as [[mf jn jf sc] c f os ss].
+    unfold dispatch_pure, dispatch, after, apply_sop, resolve_pure, bind, of_opt, get, ret, raise, schedule_add,
+      update_tracking, set_core, set_cache, set_objs, modify, resolve_machine, bind, get, ret, raise, of_opt.
+    cbn.
+    unfold nthN, nthZ.
+    destruct (get_op I (r_job r) (r_pos r)) as [o|]; cbn; [|reflexivity].
+    destruct (nth (r_job r) jn 0%nat =? r_pos r)%nat; cbn; [|reflexivity].
+    destruct (r_mach r) as [m|]; cbn.
+    - destruct (py_index (length mf) m) as [mi|]; cbn; [|reflexivity].
+      destruct (existsb (fun k : nat => Z.of_nat k =? m) (machines o)); cbn; [|reflexivity].
+      destruct (nth_error sc (Z.to_nat m)) as [row|]; cbn; [|reflexivity].
+      destruct (last_opt row) as [y|]; cbn; [|reflexivity].
+      destruct (s_end I y <=? Z.max (nth mi mf 0) (nth (r_job r) jf 0)); cbn; reflexivity.
+    - destruct (machines o) as [|k [|k2 t]]; cbn; try reflexivity.
+      destruct (py_index (length mf) (Z.of_nat k)) as [mi|]; cbn; [|reflexivity].
+      destruct (Z.of_nat k =? Z.of_nat k); cbn; [|reflexivity].
+      destruct (nth_error sc (Z.to_nat (Z.of_nat k))) as [row|]; cbn; [|reflexivity].
+      destruct (last_opt row) as [y|]; cbn; [|reflexivity].
+      destruct (s_end I y <=? Z.max (nth mi mf 0) (nth (r_job r) jf 0)); cbn; reflexivity.
+  Qed.
+
   Theorem dispatch_cases (I : instance) (r : request) (w : world O) :
     (exists e, dispatch o_update I r w = (w, inr e)) \/
     (exists x o row, accepted I (core w) r x o row /\
                      dispatch o_update I r w = (after I w x row, inl tt)).
   Proof.
-    unfold dispatch, bind, of_opt, get, ret, raise.
+    rewrite dispatch_is_pure. unfold dispatch_pure.
     destruct (get_op I (r_job r) (r_pos r)) as [o|] eqn:Ho; [|left; eexists; reflexivity].
     destruct (nthN (jnext (core w)) (r_job r) =? r_pos r)%nat eqn:Hnext;
       [|left; eexists; reflexivity].
     apply Nat.eqb_eq in Hnext.
-    (* machine id *)
-    assert (Hm : (exists e, resolve_machine o (r_mach r) w = (w, inr e)) \/
-                 (exists m, resolve_machine o (r_mach r) w = (w, inl m) /\
-                  match r_mach r with Some m' => m' = m | None => exists k, machines o = [k] /\ m = Z.of_nat k end)).
-    { unfold resolve_machine, ret, raise. destruct (r_mach r) as [m|].
-      - right. exists m. split; reflexivity.
-      - destruct (machines o) as [|k [|k2 t]].
-        + left; eexists; reflexivity.
-        + right. exists (Z.of_nat k). split; [reflexivity|]. exists k; split; reflexivity.
-        + left; eexists; reflexivity. }
-    destruct Hm as [[e He]|(m & He & Hmm)]; rewrite He; [left; eexists; reflexivity|].
-    clear He.
+    destruct (resolve_pure o (r_mach r)) as [m|e] eqn:Hres; [|left; eexists; reflexivity].
+    assert (Hmm : match r_mach r with Some m' => m' = m | None => exists k, machines o = [k] /\ m = Z.of_nat k end).
+    { unfold resolve_pure in Hres. destruct (r_mach r) as [m'|].
+      - inversion Hres; reflexivity.
+      - destruct (machines o) as [|k [|k2 t]]; inversion Hres. exists k; split; reflexivity. }
     destruct (py_index (length (mfree (core w))) m) as [mi|] eqn:Hpi; [|left; eexists; reflexivity].
     destruct (existsb (fun k : nat => Z.of_nat k =? m) (machines o)) eqn:Hel;
       [|left; eexists; reflexivity].
     apply existsb_elig in Hel. destruct Hel as [Hin Hmeq].
     assert (Hm0 : 0 <= m) by lia.
     destruct (py_index_nonneg _ _ _ Hm0 Hpi) as [Hmi Hlt]. subst mi.
-    unfold schedule_add, bind, get, of_opt, ret, raise. cbn [s_mach s_start].
     destruct (nth_error (sched (core w)) (Z.to_nat m)) as [row|] eqn:Hrow;
       [|left; eexists; reflexivity].
+    cbv zeta.
     set (st := Z.max (nthZ (mfree (core w)) (Z.to_nat m)) (nthZ (jfree (core w)) (r_job r))).
     set (x := mksop (r_job r) (r_pos r) st (Z.to_nat m)).
     assert (Hacc : forall (Hl : match last_opt row with Some y => s_end I y <= st | None => True end),
@@ -94,12 +147,8 @@ Section DispatchFun.
         + destruct Hmm as (k & Hk & Hmk). rewrite Hk. subst m. rewrite Nat2Z.id. reflexivity. }
     destruct (last_opt row) as [y|] eqn:Hlast.
     - destruct (s_end I y <=? st) eqn:Hle; [|left; eexists; reflexivity].
-      apply Z.leb_le in Hle. right. exists x, o, row. split; [apply Hacc; exact Hle|].
-      unfold update_tracking, set_core, set_cache, set_objs, modify, bind, get, after, apply_sop.
-      destruct w as [d c f os ss]; destruct d as [mf jn jf sc]. cbn. reflexivity.
-    - right. exists x, o, row. split; [apply Hacc; exact Logic.I|].
-      unfold update_tracking, set_core, set_cache, set_objs, modify, bind, get, after, apply_sop.
-      destruct w as [d c f os ss]; destruct d as [mf jn jf sc]. cbn. reflexivity.
+      apply Z.leb_le in Hle. right. exists x, o, row. split; [apply Hacc; exact Hle|reflexivity].
+    - right. exists x, o, row. split; [apply Hacc; exact Logic.I|reflexivity].
   Qed.
 
   (** C09 core: a raised exception leaves the whole world as it was. *)
